@@ -117,7 +117,12 @@ def strat_directed(tier):
     return gen.directed_scenario(gen.fork_join_ir(items=True, retry=True), flags={"pending": 1}, controls=CONTROLS, max_choices=60, p_fail=0.3)
 
 
+def strat_items(tier):
+    return gen.directed_scenario(gen.items_siblings_ir(), flags={"pending": 1}, controls=CONTROLS, max_choices=60, canceled=True)
+
+
 PARTS = [
     Part("status-invariant", run, strategy, {"quick": 2000, "thorough": 60000}, rule=RULE),
     Part("fork-join", run, strat_directed, {"quick": 1200, "thorough": 30000}, rule="directed fork-join definitions with failing / remediated / missing branches and control requests"),
+    Part("items-siblings", run, strat_items, {"quick": 1200, "thorough": 30000}, rule="directed: concurrency-limited with-items tasks beside plain tasks that report pending / canceled / failed, with control requests"),
 ]
